@@ -623,6 +623,9 @@ def prepass(text, opaque=None, log=None):
     toks = [t for t in lex(text) if t.kind not in ("ws", "comment", "doc")]
     texts = [t.text for t in toks]
     edits = []
+    o1_stmt_spans = []   # a rewrite inside a span that rule O1 abstracts as a whole statement is moot (the span is replaced)
+    def _in_o1(pos):
+        return any(s_ <= pos < e_ for s_, e_ in o1_stmt_spans)
     for o in (opaque or []):
         if "stmt_from" in o:
             # a whole block statement: from the head tokens through the brace block they open
@@ -646,6 +649,7 @@ def prepass(text, opaque=None, log=None):
                 e = match_close(toks, b2)
             orig = text[toks[i].start:toks[e].end]
             edits.append((toks[i].start, toks[e].end, o["call"]))
+            o1_stmt_spans.append((toks[i].start, toks[e].end))
             if log is not None:
                 log.append({"rule": "O1", "expr": orig, "call": o["call"], "occurrences": 1, "statement": True})
             continue
@@ -731,6 +735,9 @@ def prepass(text, opaque=None, log=None):
                     continue   # `.. { S; continue; }` inside a for body is rule N6's shape
                 head = text[toks[i + 1].start:toks[amp - 1].end]      # `let P = E`
                 cond = text[toks[amp + 1].start:toks[j - 1].end]       # C
+                if _in_o1(toks[i].start):
+                    i += 1
+                    continue
                 edits.append((toks[amp - 1].end, toks[j].end, " { if %s {" % cond))
                 edits.append((toks[bc].end, toks[bc].end, " }"))
                 if log is not None:
@@ -765,6 +772,9 @@ def prepass(text, opaque=None, log=None):
                 head = text[toks[amp + 1].start:toks[j - 1].end]
                 if "&&" in [t.text for t in code_tokens(head)]:
                     raise ExtractError("N3b: longer let-chain is not supported")
+                if _in_o1(toks[i].start):
+                    i += 1
+                    continue
                 edits.append((toks[amp - 1].end, toks[amp + 1].start, " { if "))
                 edits.append((toks[bc].end, toks[bc].end, " }"))
                 if log is not None:
